@@ -22,6 +22,25 @@ theorem total_is_sum_of_actions (dmg : DamageLog β → Rat) (entries : List (Si
   refine ⟨pySum_eq_sum _, fun en _ => ?_⟩
   rw [calculateDamage_eq_sum, damageRecords, List.map_map]; rfl
 
+/-- the total of a run cut in two is the total of the first part plus the total of the second -/
+theorem total_append (dmg : DamageLog β → Rat) (xs ys : List (SimulationEntry β)) :
+    calculateTotalDamage dmg (xs ++ ys) = calculateTotalDamage dmg xs + calculateTotalDamage dmg ys := by
+  rw [(total_is_sum_of_actions dmg (xs ++ ys)).1, (total_is_sum_of_actions dmg xs).1,
+    (total_is_sum_of_actions dmg ys).1, List.map_append, List.sum_append]
+
+/-- the total does not depend on the order in which the actions were recorded -/
+theorem total_perm (dmg : DamageLog β → Rat) {xs ys : List (SimulationEntry β)} (h : xs.Perm ys) :
+    calculateTotalDamage dmg xs = calculateTotalDamage dmg ys := by
+  rw [(total_is_sum_of_actions dmg xs).1, (total_is_sum_of_actions dmg ys).1]
+  induction h with
+  | nil => rfl
+  | cons x _ ih => simp only [List.map_cons, List.sum_cons, ih]
+  | swap x y l => simp only [List.map_cons, List.sum_cons]; ring
+  | trans _ _ ih₁ ih₂ => exact ih₁.trans ih₂
+
+/-- an empty run has total 0 -/
+theorem total_nil (dmg : DamageLog β → Rat) : calculateTotalDamage dmg ([] : List (SimulationEntry β)) = 0 := by
+  rw [(total_is_sum_of_actions dmg []).1]; rfl
 /-- the per-skill sums of `DamageShareFeature` add up to the run total (sum rearrangement by name) -/
 theorem total_is_sum_of_skills (dmg : DamageLog β → Rat) (entries : List (SimulationEntry β)) :
     ((shareSums dmg entries).map (·.2)).sum = calculateTotalDamage dmg entries := by
